@@ -26,6 +26,9 @@ type c06Cfg struct {
 	InitWin  uint32 `json:"init_window"`
 	Sizes    []int  `json:"sizes"`
 	Streamed []bool `json:"streamed"`
+	// Kinds (optional, per stream) picks the reader of a streamed body: 0 declared length, 1 unknown length,
+	// 2 unknown length with the last bytes returned together with io.EOF, 3 declared, one byte per Read
+	Kinds []int `json:"kinds,omitempty"`
 }
 
 type c06Case struct {
@@ -121,14 +124,23 @@ func (x *c06Run) stuck() string {
 	return ""
 }
 
-func c06Resp(size int, streamed bool) harness.Resp {
+func c06Resp(size int, streamed bool, kind int) harness.Resp {
 	body := []byte(valOfLen(size))
 	if streamed {
 		var chunks [][]byte
 		if size > 0 {
 			chunks = [][]byte{body[:size/2], body[size/2:]}
 		}
-		return harness.Resp{Status: 200, Stream: &harness.BodyStream{Chunks: chunks, Declared: size}}
+		bs := &harness.BodyStream{Chunks: chunks, Declared: size}
+		switch kind {
+		case 1:
+			bs.Declared = -1
+		case 2:
+			bs.Declared, bs.EOFWithLast = -1, true
+		case 3:
+			bs.OneByte = true
+		}
+		return harness.Resp{Status: 200, Stream: bs}
 	}
 	return harness.Resp{Status: 200, Body: body}
 }
@@ -206,7 +218,11 @@ func (x *c06Run) apply(ev string) *fw.Violation {
 		fmt.Sscanf(ev, "finish %d", &a)
 		for _, c := range h.Calls {
 			if c.Stream == x.ids[a] && !c.Returned {
-				h.Finish(c.Idx, c06Resp(x.cfg.Sizes[a], x.cfg.Streamed[a]))
+				kind := 0
+				if a < len(x.cfg.Kinds) {
+					kind = x.cfg.Kinds[a]
+				}
+				h.Finish(c.Idx, c06Resp(x.cfg.Sizes[a], x.cfg.Streamed[a], kind))
 			}
 		}
 		x.fin[a] = true
@@ -280,7 +296,11 @@ func (x *c06Run) finishAll() *fw.Violation {
 		if x.rst[i] {
 			continue
 		}
-		if d, cls := harness.CheckResponse(x.h.Streams[id], c06Resp(x.cfg.Sizes[i], x.cfg.Streamed[i])); d != "" {
+		kind := 0
+		if i < len(x.cfg.Kinds) {
+			kind = x.cfg.Kinds[i]
+		}
+		if d, cls := harness.CheckResponse(x.h.Streams[id], c06Resp(x.cfg.Sizes[i], x.cfg.Streamed[i], kind)); d != "" {
 			return x.viol("response-incomplete "+cls, fmt.Sprintf("after every window was opened, stream %d: %s", id, d))
 		}
 	}
@@ -318,15 +338,17 @@ func runC06(c *fw.Ctx) {
 	runSpxFamily(c, "C06")
 	thorough := c.Tier == "thorough"
 	cfgs := []c06Cfg{
-		{0, []int{3}, []bool{false}}, {1, []int{6}, []bool{true}}, {5, []int{6, 3}, []bool{false, false}}, {1, []int{3, 1}, []bool{true, false}},
-		{5, []int{16385}, []bool{false}}, {0, []int{0, 3}, []bool{true, true}},
+		{0, []int{3}, []bool{false}, nil}, {1, []int{6}, []bool{true}, nil}, {5, []int{6, 3}, []bool{false, false}, nil}, {1, []int{3, 1}, []bool{true, false}, nil},
+		{5, []int{16385}, []bool{false}, nil}, {0, []int{0, 3}, []bool{true, true}, nil},
 		// three streams blocked on the connection window alone (stream windows are large)
-		{70000, []int{6, 6, 6}, []bool{false, false, false}},
+		{70000, []int{6, 6, 6}, []bool{false, false, false}, nil},
 	}
+	// streamed responses held up by the connection window alone, with every kind of reader
+	cfgs = append(cfgs, c06Cfg{70000, []int{6, 6, 6}, []bool{true, true, true}, []int{0, 2, 1}}, c06Cfg{70000, []int{3, 6}, []bool{true, false}, []int{2, 0}}, c06Cfg{70000, []int{6, 3}, []bool{true, true}, []int{3, 0}})
 	depth := 4
 	if thorough {
 		depth = 5
-		cfgs = append(cfgs, c06Cfg{1, []int{40000, 6}, []bool{true, false}}, c06Cfg{5, []int{16384, 1}, []bool{false, true}}, c06Cfg{0, []int{1, 3, 6}, []bool{false, true, false}}, c06Cfg{5, []int{6, 6, 0}, []bool{true, false, true}})
+		cfgs = append(cfgs, c06Cfg{1, []int{40000, 6}, []bool{true, false}, nil}, c06Cfg{5, []int{16384, 1}, []bool{false, true}, nil}, c06Cfg{0, []int{1, 3, 6}, []bool{false, true, false}, nil}, c06Cfg{5, []int{6, 6, 0}, []bool{true, false, true}, nil})
 	}
 	c.Bound["depth"] = depth
 	c.Bound["configs"] = len(cfgs)
